@@ -148,10 +148,12 @@ COMPOUND = {"+=": "+", "-=": "-", "*=": "*", "/=": "/", "%=": "%", "|=": "|", "&
 class SymInterp(Interp):
     """order(l, r) -> -1/0/1 decides comparisons between symbolic values (or raises CannotEstablish)"""
 
-    def __init__(self, order=None, max_iter=64, **kw):
+    def __init__(self, order=None, max_iter=64, resolver=None, **kw):
         super().__init__(**kw)
         self.order = order
         self.max_iter = max_iter
+        self.resolver = resolver      # name -> SynFn-like (body, param_names) for helper functions to evaluate inline
+        self.inline_depth = 0
 
     # ---- scoping -----------------------------------------------------------------------------
     def run_fn(self, synfn, env):
@@ -166,6 +168,23 @@ class SymInterp(Interp):
         for s in b["s"]:
             v = self.stmt(s, env)
         return v
+
+    def inline(self, f, args, recv=None):
+        self.inline_depth += 1
+        if self.inline_depth > 16:
+            self.inline_depth -= 1
+            raise CannotEstablish("inlining depth")
+        try:
+            names = f.param_names()
+            env = {}
+            if recv is not None or (names and names[0] == "self"):
+                env["self"] = recv
+                names = names[1:] if names and names[0] == "self" else names
+            for n, a in zip(names, args):
+                env[n] = a
+            return self.run_fn(f, env)
+        finally:
+            self.inline_depth -= 1
 
     def call_closure(self, clo, args):
         _, e, cenv = clo
@@ -289,6 +308,14 @@ class SymInterp(Interp):
                     raise
         if k == "continue":
             raise _Continue(e.get("label"))
+        if k == "call" and self.resolver is not None and e["f"]["k"] == "path":
+            pth = e["f"]["p"]
+            last = pth.rsplit("::", 1)[-1]
+            if pth not in self.funcs and last not in self.funcs and not last[:1].isupper():
+                f = self.resolver(pth)
+                if f is not None:
+                    args = [self.eval(a, env) for a in e["a"]]
+                    return self.inline(f, args)
         if k == "array":
             return [self.eval(x, env) for x in e["e"]]
         if k == "repeat":
@@ -395,6 +422,11 @@ class SymInterp(Interp):
                     if c:
                         best = x
                 return best
+            if m in ("find", "position") and len(args) == 1:
+                for idx, x in enumerate(recv):
+                    if self.truth(self.call_closure(args[0], [x]), "closure of .%s()" % m):
+                        return x if m == "find" else idx
+                return None
             if m in ("any", "all") and len(args) == 1:
                 vals = [self.truth(self.call_closure(args[0], [x]), "closure of .%s()" % m) for x in recv]
                 return any(vals) if m == "any" else all(vals)
@@ -415,6 +447,13 @@ class SymInterp(Interp):
             if m == "max":
                 return recv if gt else args[0]
             return args[0] if gt else recv
+        if m == "map" and len(args) == 1 and not isinstance(recv, (list, Lin)) and isinstance(args[0], tuple) and args[0] and args[0][0] == "closure":
+            # Option::map (Some(x) is represented by x itself)
+            if recv is None or (isinstance(recv, Variant) and recv.last == "None"):
+                return None
+            return self.call_closure(args[0], [recv])
+        if m == "clamp" and len(args) == 2 and all(isinstance(x, int) for x in (recv, args[0], args[1])):
+            return max(args[0], min(recv, args[1]))
         if m in ("unwrap_or", "unwrap_or_default") and recv is not None:
             return recv
         if m == "unwrap_or" and recv is None:
